@@ -70,7 +70,7 @@ Definition set_last_end (acc : list itvl) (e : Z) : res (list itvl) :=
   | [] => Panic "createAudioSeg: index out of range [-1] (sampleItvls)"
   | it :: tl => Ok ({| i_seg := i_seg it; i_start := i_start it; i_end := e; i_fill := i_fill it |} :: tl)
   end.
-(** the repaired assignment (proposed_fixes/C03-endidx.diff): endIdx = startIdx + count, in uint32 *)
+(** L115-116 (since fix fc72486): last.endIdx = last.startIdx + count, in uint32 *)
 Definition set_last_end_rel (acc : list itvl) (cnt : Z) : res (list itvl) :=
   match acc with
   | [] => Panic "createAudioSeg: index out of range [-1] (sampleItvls)"
@@ -110,18 +110,13 @@ Definition start_search (segs : list seg) (inStart : Z) : res Z :=
   else search_down inStart (rev (takeZ (startNr + 1) segs)) startNr.
 
 (** * createAudioSeg, the loop over the segments (L85-118).
-    [segs] is [rep.Segments[i:]]; result (timeCollected, sampleItvls reversed).
-    [fx] selects between the two versions of L115 that exist: [false] = the code as found
-    ([endIdx] = the number of samples; finding audio-inner-interval-500), [true] = the code with
-    proposed_fixes/C03-endidx.diff applied ([endIdx = startIdx +] the number of samples). The harness
-    determines which of the two the implementation under test has (a probe request) and every
-    case carries that flag; the theorems are proved for both. *)
-Fixpoint seg_loop (fx : bool) (F inStart inEnd lastIdx : Z) (segs : list seg) (i next tc : Z) (acc : list itvl)
+    [segs] is [rep.Segments[i:]]; result (timeCollected, sampleItvls reversed). *)
+Fixpoint seg_loop (F inStart inEnd lastIdx : Z) (segs : list seg) (i next tc : Z) (acc : list itvl)
   : res (Z * list itvl) :=
   match segs with
   | [] => Ok (tc, acc)
   | s :: rest =>
-    if s_end s <=? inStart then seg_loop fx F inStart inEnd lastIdx rest (i + 1) next tc acc else
+    if s_end s <=? inStart then seg_loop F inStart inEnd lastIdx rest (i + 1) next tc acc else
     let acc1 := if (next <? s_end s) && is_nil acc
                 then [mk_itvl i (u32 (u64 (next - s_start s) / F))] else acc in
     if inEnd >=? s_end s then
@@ -130,7 +125,7 @@ Fixpoint seg_loop (fx : bool) (F inStart inEnd lastIdx : Z) (segs : list seg) (i
       let tc2 := u64 (tc + d) in
       let next2 := s_end s in
       if next2 =? inEnd then Ok (tc2, acc2) else
-      if i <? lastIdx then seg_loop fx F inStart inEnd lastIdx rest (i + 1) next2 tc2 (mk_itvl (i + 1) 0 :: acc2)
+      if i <? lastIdx then seg_loop F inStart inEnd lastIdx rest (i + 1) next2 tc2 (mk_itvl (i + 1) 0 :: acc2)
       else
         (* last segment and some time to the wrap missing: repeat the last sample *)
         let fillTime := u64 (inEnd - s_end s) in
@@ -138,9 +133,9 @@ Fixpoint seg_loop (fx : bool) (F inStart inEnd lastIdx : Z) (segs : list seg) (i
         do acc3 <- set_last_fill acc2 (u32 (fillTime / F));
         Ok (tc3, acc3)
     else
-      (* L115: the count of samples, not startIdx + count (finding audio-inner-interval-500) *)
-      do acc2 <- (if fx then set_last_end_rel acc1 (u32 (u64 (inEnd - next) / F))
-                  else set_last_end acc1 (u32 (u64 (inEnd - next) / F)));
+      (* the interval ends inside this segment: endIdx = startIdx + count. (Before fix fc72486 this was
+         endIdx = count, which failed whenever startIdx > 0: audio-inner-interval-500.) *)
+      do acc2 <- set_last_end_rel acc1 (u32 (u64 (inEnd - next) / F));
       do d <- last_dur F acc2;
       Ok (u64 (tc + d), acc2)
   end.
@@ -159,10 +154,10 @@ Fixpoint after_loop (F after : Z) (segs : list seg) (i : Z) (acc : list itvl) : 
 (** * interval computation of createAudioSeg (L68-133); the result is in Go's order.
     [F = 0] cannot reach createAudioSeg (calcAudioSegRecipe divides by it first); the model panics
     at the entry in that case instead of at the first division. *)
-Definition intervals (fx : bool) (F : Z) (segs : list seg) (rc : recipe) : res (list itvl) :=
+Definition intervals (F : Z) (segs : list seg) (rc : recipe) : res (list itvl) :=
   if F =? 0 then Panic "createAudioSeg: integer divide by zero (sampleDur)" else
   do startNr <- start_search segs (r_inStart rc);
-  do tcacc <- seg_loop fx F (r_inStart rc) (r_inEnd rc) (lenZ segs - 1) (dropZ startNr segs) startNr (r_inStart rc) 0 [];
+  do tcacc <- seg_loop F (r_inStart rc) (r_inEnd rc) (lenZ segs - 1) (dropZ startNr segs) startNr (r_inStart rc) 0 [];
   let '(tc, acc) := tcacc in
   let audioLeft := u64 (u64 (r_end rc - r_start rc) - tc) in
   if negb (audioLeft =? r_after rc) then Err "audioLeft != audioInEndAfterWrap" else
@@ -201,17 +196,17 @@ Fixpoint expand (segs : list seg) (its : list itvl) : res (list Z) :=
 (** * the produced segment (resetSegmentToNewSamples, L187-204): tfdt, sequence number, samples *)
 Record outseg := { o_tfdt : Z; o_seq : Z; o_frames : list Z }.
 
-Definition create_audio_seg (fx : bool) (F : Z) (segs : list seg) (rc : recipe) : res outseg :=
-  do its <- intervals fx F segs rc;
+Definition create_audio_seg (F : Z) (segs : list seg) (rc : recipe) : res outseg :=
+  do its <- intervals F segs rc;
   do fr <- expand segs its;
   if is_nil its then Panic "resetSegmentToNewSamples: nil segment" else
   Ok {| o_tfdt := r_start rc; o_seq := r_nr rc; o_frames := fr |}.
 
 (** createAudioSegment (livesegment.go L606-612) after the reference lookup *)
-Definition audio_segment (fx : bool) (refNr refStart refEnd refTotalDur refTimescale F audioTimescale : Z) (segs : list seg)
+Definition audio_segment (refNr refStart refEnd refTotalDur refTimescale F audioTimescale : Z) (segs : list seg)
   : res outseg :=
   do rc <- calcAudioSegRecipe refNr refStart refEnd refTotalDur refTimescale F audioTimescale;
-  create_audio_seg fx F segs rc.
+  create_audio_seg F segs rc.
 
 (** * generateTimelineEntriesFromRef (asset.go L530-576) on an abstract reference entry list:
     [refT] is the T of the first reference entry, the entries are (D, R). Result reversed while
